@@ -91,9 +91,11 @@ func (c *Context) AbortWithStatus(code int, msg ...string) {
 
 // Next processing, run all handlers
 func (c *Context) Next() {
-	c.index++
 	s := int8(len(c.handlers))
-	for ; c.index < s; c.index++ {
+	// the cursor stays on the handler that is running: it only moves when the
+	// next handler starts, so it cannot pass abortIndex without an Abort().
+	for c.index+1 < s {
+		c.index++
 		c.handlers[c.index](c)
 	}
 }
